@@ -337,6 +337,12 @@ class Checker:
                     self.prop_failures.append((case, "protos changed after mutating globals referenced by the script"))
                 if "after_mutation_equal" in res:
                     self.stats["global_mutations_checked"] += 1
+                if "override_digest" in res:
+                    self.stats["script_override_calls"] += 1
+                    if res.get("plain_after_override_equal") is False:
+                        self.prop_failures.append((case, f"to_model_proto() after to_model_proto(**{op['proto_overrides']}) on the same function differs from the call before it: the override was remembered"))
+                    if res.get("kwargs_unchanged") is False:
+                        self.prop_failures.append((case, f"to_model_proto(**{op['proto_overrides']}) modified the function's kwargs"))
                 if "body" in op and "consts" in res:
                     self.globals_case(op, res, case)
                 for kind_, outs in res.get("ctrl_outputs", []):
@@ -360,6 +366,48 @@ class Checker:
             self.names[json.dumps(n)] = n
         for c in rep.get("ctrl") or []:
             self.ctrls[json.dumps(c)] = c
+
+    # ---- to_model_proto(**overrides) histories on functions sharing a decorator object
+    def kwseq(self, ops: list[dict]) -> None:
+        jobs = []
+        for i, op in enumerate(ops):
+            s = SEEDS[i % len(SEEDS)]
+            jobs.append((s, {"id": f"kw{i}", "ops": [op]}))
+            jobs.append((s, {"id": f"kw{i}f", "ops": [{**op, "calls": []}]}))
+        jobs.append(("0", {"id": "kwdef", "ops": [{"k": "kwseq", "decos": [{}], "fns": [0], "calls": [], "target": [0, {}]}]}))
+        reps = self.pool.run(jobs)
+        for r in reps:
+            infra_check(r)
+        default_ir = reps[-1]["results"][0]["eff"]["ir_version"]
+        keys = [k for k in G.KW_KEYS if k != "opset_version"]
+        defaults = {k: None for k in keys}
+        defaults.update(ir_version=default_ir, model_version=0)
+        for i, op in enumerate(ops):
+            full, fresh = reps[2 * i]["results"][0], reps[2 * i + 1]["results"][0]
+            case = {"kind": "single", "op": op, "seed": SEEDS[i % len(SEEDS)]}
+            self.stats["kwseq_cases"] += 1
+            self.stats["kwseq_calls"] += len(op["calls"])
+            self.stats["ops_executed"] += 2
+            if full.get("err") or fresh.get("err"):
+                raise core.Infra(f"kwseq case failed to run: {full.get('err') or fresh.get('err')}")
+            ti = op["target"][0]
+            same_deco = sum(1 for fi, _ in op["calls"] if fi != ti and op["fns"][fi] == op["fns"][ti])
+            self.stats["kwseq_calls_on_siblings_of_target"] += same_deco
+            self.stats["kwseq_calls_on_target"] += sum(1 for fi, _ in op["calls"] if fi == ti)
+            if full["digest"] != fresh["digest"]:
+                self.prop_failures.append((case, (
+                    f"to_model_proto(**{op['target'][1]}) / to_model_proto() / to_function_proto() of kf{ti} after {len(op['calls'])} earlier "
+                    f"to_model_proto(**overrides) calls differ from the fresh result: shows {full['eff']} / {full['plain']}, fresh {fresh['eff']} / {fresh['plain']}")))
+            if not full["kwargs_unchanged"]:
+                self.prop_failures.append((case, f"to_model_proto(**overrides) modified function kwargs: {full['kwargs_before']} -> {full['kwargs_after']}"))
+            if not full["function_protos_unchanged"]:
+                self.prop_failures.append((case, "to_function_proto() of some function changed after to_model_proto(**overrides) calls"))
+            # model (current, non-aliasing) vs implementation
+            dicts = "|".join(
+                f"{r}:" + (";".join(f"{k}={v}" for k, v in sorted(full["kwargs_after"][op["fns"].index(r)].items())) or "-")
+                for r in dict.fromkeys(op["fns"])
+            )
+            self.model_lines.append((G.kw_line(op), ("kw", full["eff"], full["plain"], dicts, defaults, keys), case))
 
     def globals_case(self, op: dict, res: dict, case: dict) -> None:
         g0 = dict(op["globals"])
@@ -441,6 +489,18 @@ class Checker:
                 m = out.split(" ")[0].split("=", 1)[1]
                 if m != csvs(exp[1]):
                     self.tie_failures.append((case, f"If live_defs: implementation {exp[1]}, model {m} (set iterated as {case['iter']})"))
+            elif isinstance(exp[1], tuple) and exp[1][0] == "kw":
+                _, eff, plain, dicts, defaults, keys = exp[1]
+                parts = dict(p.split("=", 1) for p in out.split(" "))
+                ok = parts.get("dicts") == dicts
+                for tag, obs in (("eff", eff), ("plain", plain)):
+                    mv = parts.get(tag, "").split(",")
+                    for k, m in zip(keys, mv):
+                        want = defaults[k] if m == "none" else int(m)
+                        ok = ok and obs[k] == want
+                self.stats["kw_model_lines"] += 1
+                if not ok:
+                    self.tie_failures.append((case, f"to_model_proto overrides: model `{out}` vs implementation eff={eff} plain={plain} dicts={dicts}"))
             else:
                 if exp[1] is None:
                     op = case["op"]
@@ -521,6 +581,8 @@ def replay(run: core.Run, pool: Pool, chk: Checker, case: dict) -> None:
         if kind == "history":
             pr["hseeds"] = [case["seed"]]
         chk.differential([pr], monitor_every=1)
+    elif kind == "single" and case["op"].get("k") == "kwseq":
+        chk.kwseq([case["op"]])
     elif kind == "single":
         pr = {"tag": "replay", "history": [], "target": case["op"]}
         chk.differential([pr])
@@ -559,6 +621,10 @@ def main(run: core.Run) -> None:
             corpus = [json.loads(l) for l in CORPUS.read_text().splitlines() if l.strip()] if CORPUS.exists() else []
             chk.differential(corpus + directed_pairs(run.rng), monitor_every=1)
             run.coverage["directed_s"] = round(time.time() - t0, 1)
+            kw_ops = [{"k": "kwseq", "decos": [{}], "fns": [0, 0], "calls": [[1, {"producer_name": 7}]], "target": [0, {}]},
+                      {"k": "kwseq", "decos": [{"producer_name": 1}], "fns": [0], "calls": [[0, {"ir_version": 9, "io_types": 7}]], "target": [0, {"doc_string": 2}]}]
+            kw_ops += [G.gen_kwseq(run.rng)[0] for _ in range(run.size(40, 400))]
+            chk.kwseq(kw_ops)
             n_targets = run.size(60, 600)
             n_hist = run.size(3, 4)
             bad_rows = [r["name"] for r in rows["rules"] + rows["ortRules"] if not extract_stash.row_ok(r) and r["name"] != "CosSinCacheFusion"]
